@@ -63,6 +63,7 @@ class Sim:
         self.stats = {"global": 0, "ref": 0, "evict": 0, "merge": 0, "cross": 0, "flush": 0, "msgs": 0, "crowd": 0, "dump": 0}
         self.dumpdir = None
         self.dump_off = 0
+        self.prev_pos = {}
 
     # ---- steps
     def init(self, lat, lon, t_start=1000.0, rx_known=True, dump=False):
@@ -321,16 +322,29 @@ class Sim:
         if up != lo:
             diff = [k for k in set(up) | set(lo) if up.get(k) != lo.get(k)]
             raise Violation("tables differ between upper- and lower-case input for %r: %r vs %r" % (diff[:3], {k: up.get(k) for k in diff[:1]}, {k: lo.get(k) for k in diff[:1]}))
-        # positions
+        # positions.  Which message caused an update is taken from the history itself, not from a field of the record: a stored position
+        # that differs from the one stored before this call was written by one of this call's position messages of that aircraft.
+        batch_times = {}
+        for t, m in self.batch_a:
+            batch_times.setdefault(int(m[2:8], 16), set()).add(t)
         for addr, log in self.pos_log.items():
             key = "%06X" % addr
-            if key in table and table[key].get("tpos") in log and table[key].get("lat") is not None:
+            if key not in table or table[key].get("lat") is None:
+                self.prev_pos.pop(addr, None)
+                continue
+            lat, lon = table[key]["lat"], table[key]["lon"]
+            if self.prev_pos.get(addr) != (lat, lon):
+                cands = [(t,) + log[t] for t in sorted(batch_times.get(addr, ())) if t in log]
+                if not any(abs(lat - tl) <= tollat and cpr.lon_diff(lon, to) <= tollon for (_t, tl, to, tollat, tollon) in cands):
+                    raise Violation("aircraft %s: this call stored (%r, %r); its position messages in the call and the true positions at them: %r" % (
+                        key, lat, lon, [(t_, round(tl, 5), round(to, 5)) for (t_, tl, to, _a, _b) in cands]))
+                self.stats["ref"] += 1
+            self.prev_pos[addr] = (lat, lon)
+            if table[key].get("tpos") in log:   # the record's own note of the update time, where it keeps one
                 tl, to, tollat, tollon = log[table[key]["tpos"]]
-                lat, lon = table[key]["lat"], table[key]["lon"]
                 if abs(lat - tl) > tollat or cpr.lon_diff(lon, to) > tollon:
                     raise Violation("aircraft %s: table stores (%r, %r) for the position message at t=%r, true position (%r, %r) (tolerance %.5f/%.5f deg)" % (
                         key, lat, lon, table[key]["tpos"], tl, to, tollat, tollon))
-                self.stats["ref"] += 1
         self.batch_a, self.batch_c = [], []
 
     def run(self, steps):
@@ -457,9 +471,11 @@ class Machine(RuleBasedStateMachine):
 
     @precondition(lambda self: self.sim.acs)
     @rule(idx=IDX, reps=st.integers(1, 8), dt=st.one_of(gen.ufloat(20, 58), gen.ufloat(100, 400)), seed=SEED, parity=st.integers(0, 1), bits=gen.ubits(15),
-          flush_between=st.booleans())
-    def position_gap_position(self, idx, reps, dt, seed, parity, bits, flush_between):
+          flush_between=st.booleans(), after=st.sampled_from(["one", "pair", "pair", "pair-flushed", "same-parity-twice"]), fast=st.booleans())
+    def position_gap_position(self, idx, reps, dt, seed, parity, bits, flush_between, after, fast):
         """a fix, then a long stretch in which the aircraft stays listed through non-position messages, then one position message"""
+        if fast:
+            self.do("turn", idx, float(seed % 360), 600.0)   # far from the last fix by the end of the gap (surface aircraft keep their 50 kt)
         self.do("position", idx, parity, 2, bits, 17)
         self.do("advance", 1.0)
         self.do("position", idx, 1 - parity, 2, bits, 17)
@@ -470,6 +486,12 @@ class Machine(RuleBasedStateMachine):
             if flush_between and dt < 59:
                 self.do("flush")
         self.do("position", idx, parity, 3, bits, 17)
+        if after != "one":
+            # ... and a second one shortly afterwards: with the stored fix stale, this pair (or nothing) must place the aircraft
+            if after == "pair-flushed":
+                self.do("flush")
+            self.do("advance", 1.0 + (seed % 7))
+            self.do("position", idx, parity if after == "same-parity-twice" else 1 - parity, 3, bits ^ 1, 17)
         self.do("flush")
 
     @precondition(lambda self: self.sim.acs)
